@@ -32,6 +32,10 @@ class TLCResult:
         self.postcondition_failed = "POSTCONDITION" in out.upper() and "violat" in out.lower()
         self.error_lines = [l for l in out.splitlines() if l.startswith("Error:")]
         self.ok = (rc == 0 and not self.error_lines)
+        # `-coverage 1`: <Action line .. of module M>: distinct:generated   (the last report wins)
+        self.coverage = {}
+        for m in re.finditer(r"^<(\w+) line \d+, col \d+ to line \d+, col \d+ of module \w+>: (\d+):(\d+)", out, re.M):
+            self.coverage[m.group(1)] = (int(m.group(2)), int(m.group(3)))
 
     def printed(self):
         """Values printed with PrintT, parsed. TLC wraps long values over several lines, so a
